@@ -18,6 +18,7 @@ RULE = ("lists of 1..5 pipelines with arbitrary priorities (incl. equal), 0..2 t
         "(pipelines, operation); non-trivial = >= 2 pipelines with >= 2 markers in total"
         "; resolver specs differ from declared names (duplicates allowed); marker items gated by state their own pipeline sets (named conditions + expression / list form); backend converted with another output format first"
         "; every composed pipeline also converts an empty collection (finalizers run once on the empty list)")
+RULE += '; round 4: entry points convert(collection, fmt) / convert_rule(rule, fmt) for the default and a second output format, on a fresh backend and after the same backend object served the other format through either entry point'
 ASSUMPTIONS = [
     "order is observed through markers (field-name suffixes, query wrappers, output wrappers); Jinja2 renders the finalizer templates",
     "pipeline names are distinct within a list; name order is Python string order",
@@ -62,6 +63,10 @@ def gen_cases(tier, seed, gen, effort):
         cases.append({"op": "resolve", "pipes": ps, "order": order, "order2": rnd.sample(range(n), n)})
         if n >= 3:
             cases.append({"op": "init", "pipes": ps[:3], "history": rnd.random() < 0.5})
+            # the entry points agree: convert(collection, fmt), convert_rule(rule, fmt) on a fresh backend, and either of them after the
+            # same backend object served the other output format run backend + user + the pipeline of the REQUESTED format
+            cases.append({"op": "init", "pipes": ps[:3], "via": rnd.choice(["convert", "rule", "rule"]), "target": rnd.choice(["default", "alt"]),
+                          "history": rnd.choice([None, "convert", "rule"])})
     return cases, False
 
 
@@ -86,22 +91,31 @@ def build(p):
     return ProcessingPipeline.from_dict(d)
 
 
-def observe(backend_cls, pipeline, user=True, first_format=None):
+def observe(backend_cls, pipeline, user=True, first_format=None, via="convert", target=None, first_via="convert"):
     from sigma.collection import SigmaCollection
     doc = {"title": "t", "logsource": {"category": "c"}, "detection": {"sel": {"f": "v"}, "condition": "sel"}}
     coll = SigmaCollection.from_dicts([doc])
     b = backend_cls(pipeline) if user else backend_cls()
     if first_format is not None:      # history: the same backend object converted with another output format before
-        b.convert(SigmaCollection.from_dicts([doc]), first_format)
-    out = b.convert(coll)
+        if first_via == "rule":
+            b.convert_rule(SigmaCollection.from_dicts([doc]).rules[0], first_format)
+        else:
+            b.convert(SigmaCollection.from_dicts([doc]), first_format)
+    if via == "rule":                 # a single rule, output format named (or left to the default): queries only, no finalizers
+        out = b.convert_rule(coll.rules[0], None if target == "default" and first_format is None else target)
+    else:
+        out = b.convert(coll, target) if target is not None else b.convert(coll)
     text = out if isinstance(out, str) else ";".join(map(str, out))
     m = re.search(r"\[eq 'f((?:_\d+)*)' ", text)
     items = [int(x) for x in m.group(1).split("_")[1:]] if m else None
     post = [int(x) for x in re.findall(r"P(\d+)\(", text)][::-1]      # innermost wrapper ran first
     fins = [int(x) for x in re.findall(r"F(\d+)<", text)][::-1]
     lp = b.last_processing_pipeline
+    if via == "rule":
+        return {"items": items, "post": post, "fins": None, "fins_empty": None, "text_empty": None, "vars": {k: v for k, v in lp.vars.items() if k in ("v", "w")},
+                "applied": sorted(x for x in lp.applied_ids if not x.startswith("s")), "text": text, "fmtvar": lp.vars.get("output_format")}
     # finalizers run once on the whole list - also when the list is empty
-    out0 = b.convert(SigmaCollection.from_dicts([]))
+    out0 = b.convert(SigmaCollection.from_dicts([]), target) if target is not None else b.convert(SigmaCollection.from_dicts([]))
     text0 = out0 if isinstance(out0, str) else ";".join(map(str, out0))
     fins0 = [int(x) for x in re.findall(r"F(\d+)<", text0)][::-1]
     return {"items": items, "post": post, "fins": fins, "fins_empty": fins0, "text_empty": text0, "vars": {k: v for k, v in lp.vars.items() if k in ("v", "w")},
@@ -137,10 +151,15 @@ def run_impl(case):
             from sigma.processing.pipeline import ProcessingPipeline
             b, u, f = [build(p) for p in case["pipes"]]
             other = build({"name": "other", "priority": 0, "items": [97], "post": [98], "fins": [], "vars": {"v": 99}})
+            target = case.get("target", "default")
+            fmts = {"default": f, "alt": other} if target == "default" else {"default": other, "alt": f}
             B2 = type("InitB", (B,), {"backend_processing_pipeline": b, "formats": {"default": "d", "alt": "a"},
-                                      "output_format_processing_pipeline": defaultdict(ProcessingPipeline, default=f, alt=other),
+                                      "output_format_processing_pipeline": defaultdict(ProcessingPipeline, **fmts),
                                       "finalize_query_alt": lambda self, rule, query, index, state: query,
                                       "finalize_output_alt": lambda self, queries: queries})
+            if "via" in case:
+                return {"outcome": "ok", "obs": observe(B2, u, first_format=({"default": "alt", "alt": "default"}[target] if case.get("history") else None),
+                                                        via=case["via"], target=target, first_via=case.get("history") or "convert")}
             return {"outcome": "ok", "obs": observe(B2, u, first_format="alt" if case.get("history") else None)}
     except Exception as e:
         return {"outcome": outcome_of_exception(e), "msg": str(e)[:200]}
@@ -162,7 +181,7 @@ def make_request(case, impl, gen):
 
 def judge(case, impl, reply):
     io = impl["outcome"]
-    key = (case["op"], case["pipes"], case.get("tree"), case.get("order"), case.get("history"))
+    key = (case["op"], case["pipes"], case.get("tree"), case.get("order"), case.get("history"), case.get("via"), case.get("target"))
     markers = sum(len(p["items"]) + len(p["post"]) + len(p["fins"]) for p in case["pipes"])
     nt = len(case["pipes"]) >= 2 and markers >= 2
     tags = (f"op:{case['op']}", f"n:{len(case['pipes'])}", f"impl:{io.split(':')[0]}")
@@ -174,14 +193,19 @@ def judge(case, impl, reply):
     for label, obs in (("", impl["obs"]), ("second resolution of the same objects: ", impl.get("obs2"))):
         if obs is None:
             continue
-        got = {k: obs[k] for k in ("items", "post", "fins", "vars")}
-        if got != want:
-            which = [k for k in want if got[k] != want[k]]
-            return Verdict("violation", (f"{label}{case['op']}{' (the backend object converted with output format alt first)' if case.get('history') else ''} {case.get('tree') or case.get('order') or ''} of "
+        rule_only = obs["fins"] is None         # convert_rule: queries only, finalizers are not run
+        want_ = {k: v for k, v in want.items() if not (rule_only and k == "fins")}
+        got = {k: obs[k] for k in want_}
+        if got != want_:
+            which = [k for k in want_ if got[k] != want_[k]]
+            how = (f" via {'convert_rule(rule' if case['via'] == 'rule' else 'convert(collection'}, {case['target']!r})"
+                   + (f" after {'convert_rule' if case.get('history') == 'rule' else 'convert'} with the other output format on the same backend object" if case.get("history") else " on a fresh backend")) if "via" in case else \
+                  (" (the backend object converted with output format alt first)" if case.get("history") else "")
+            return Verdict("violation", (f"{label}{case['op']}{how} {case.get('tree') or case.get('order') or ''} of "
                                          f"{[(p['name'], p['priority'], p['items'], p['post'], p['fins'], p['vars']) for p in case['pipes']]}: "
                                          f"observed {({k: got[k] for k in which})} but composition is defined to give {({k: want[k] for k in which})}; output {obs['text']!r}"),
                            nt, key, tags=tags)
-        if obs.get("fins_empty") != want["fins"]:
+        if not rule_only and obs.get("fins_empty") != want["fins"]:
             return Verdict("violation", (f"{label}{case['op']}: converting an empty collection gives {obs.get('text_empty')!r}: finalizers {obs.get('fins_empty')} ran, "
                                          f"but the composed pipeline's finalizers {want['fins']} run once on the whole (here empty) list"), nt, key, tags=tags)
         if obs["applied"] != sorted([f"i{k}" for k in want["items"]] + [f"q{k}" for k in want["post"]]):
